@@ -37,7 +37,7 @@ def main(p):
     for cell in a['cells']:
         pat = cell['pattern']
         shp = respath.shape(pat)
-        srcname = {0: 'msg-field', 1: 'file-def', 2: 'child-type', 3: 'type-ref', 9: 'common'}[cell['source']]
+        srcname = {0: 'msg-field', 1: 'file-def', 2: 'child-type', 3: 'type-ref', 4: 'dep-file-def', 5: 'dep-msg-ref', 9: 'common'}[cell['source']]
         b = getattr(C, cell['helper'] + '_path', None)
         q = getattr(C, 'parse_' + cell['helper'] + '_path', None)
         if b is None or q is None:
@@ -70,9 +70,11 @@ def main(p):
                 m[n] = v
                 valuations.append((f'{n}:{v!r}', m))
             if n in dstar:
-                m = dict(base)
-                m[n] = 'deep/er/path'
-                valuations.append((f'{n}:slashes', m))
+                for tag, v in (('slashes', 'deep/er/path'), ('empty-inner-segment', 'a//b'), ('trailing-slash', 'dir/'),
+                               ('leading-slash', '/rooted'), ('only-slash', '/')):
+                    m = dict(base)
+                    m[n] = v
+                    valuations.append((f'{n}:{tag}', m))
         for label, vals in valuations:
             out['valuations'] += 1
             out['calls'] += 3
